@@ -12,7 +12,7 @@ from nverif.engine import Prop, Violation
 from nverif.oracle.rational import lagrange_derivative_weights, poly_eval, poly_deriv
 
 EPS = 2.0 ** -52
-TOL_W = 2e-11         # relative to max_i |W[k][i]|  (~1e5 eps; measured worst see evidence)
+TOL_W = 2e-11         # relative to max_i |W[k][i]| * kappa, kappa = diameter / ((m-1) * smallest gap) >= 1
 
 
 @st.composite
@@ -75,8 +75,8 @@ class C15(Prop):
             'Fractions from the same floats. Non-trivial = at least 4 nodes and (nodes non-uniform or '
             'x0 not the centre node); distinct by (nodes, x0, n).')
     assumptions = ('python fractions.Fraction arithmetic is exact',
-                   'tolerance 2e-11 * max_i|W[k][i]| per row (conditioning = size of the largest exact '
-                   'weight of the row), calibrated >= 10x above the worst ratio seen')
+                   'tolerance 2e-11 * max_i|W[k][i]| * kappa per row, kappa = diameter / ((m-1) * smallest node gap) '
+                   '(conditioning of the node set; 1 for uniform nodes), calibrated >= 10x above the worst seen')
     constants = {'TOL_W': TOL_W}
     examples = {'quick': 150, 'thorough': 4000}
 
@@ -98,6 +98,8 @@ class C15(Prop):
         if not (w_n.shape == (m,) and np.array_equal(w_n, w_all[-1], equal_nan=True)):
             raise Violation('row-n', 'fd_weights differs from the last row of fd_weights_all')
         W = lagrange_derivative_weights(nodes, x0, n)
+        srt = sorted(nodes)
+        kappa = max(1.0, (srt[-1] - srt[0]) / min(b - a for a, b in zip(srt, srt[1:])) / (m - 1))
         fx0 = Fraction(x0)
         coefs = [Fraction(c) for c in case['coefs']]
         samples = [poly_eval(coefs, Fraction(v) - fx0) for v in nodes]   # polynomial in (t - x0)
@@ -116,8 +118,12 @@ class C15(Prop):
                 continue
             fw = float(wmax)
             err = max(abs(Fraction(float(row[i])) - W[k][i]) for i in range(m))
-            ratio = float(err) / fw
-            ctx.track('weight_err/(eps*max|W|)', ratio / EPS, dict(nodes=nodes, x0=x0, k=k))
+            # conditioning of the node set: Fornberg's recursion divides by the node gaps, so close
+            # nodes amplify rounding by about diameter / smallest gap (12 nodes with one gap of 1e-5 in
+            # a diameter of 6: error 3e-11 * max|W|, seen at seed 204)
+            ratio = float(err) / (fw * kappa)
+            ctx.track('weight_err/(eps*max|W|*kappa)', ratio / EPS, dict(nodes=nodes, x0=x0, k=k))
+            ctx.track('weight_err/(eps*max|W|)|%s' % case['kind'], float(err) / fw / EPS)
             if ratio > TOL_W:
                 i = max(range(m), key=lambda i: abs(Fraction(float(row[i])) - W[k][i]))
                 raise Violation('weights', 'row %d entry %d: library %r, exact %r (rel. to max weight %.3g)'
@@ -129,12 +135,12 @@ class C15(Prop):
             if cond > 0:
                 r2 = float(abs(applied - exact) / cond)
                 ctx.track('poly_err/(eps*sum|W p|)', r2 / EPS)
-                if r2 > TOL_W * m:
+                if r2 > TOL_W * m * kappa:
                     raise Violation('polynomial', 'row %d applied to a degree<%d polynomial gives %r, '
                                     'exact %r' % (k, m, float(applied), float(exact)), k=k)
             rs = sum(Fraction(float(v)) for v in row)
             target = 1 if k == 0 else 0
-            if float(abs(rs - target)) > TOL_W * m * fw:
+            if float(abs(rs - target)) > TOL_W * m * fw * kappa:
                 raise Violation('row-sum', 'row %d sums to %r instead of %d' % (k, float(rs), target), k=k)
         uniform = case['kind'] in ('uniform', 'onesided')
         if m >= 4 and (not uniform or case['x0kind'] != 'centre'):
